@@ -589,6 +589,9 @@ class ConfigParser(object):
     label = label.strip()
 
     params = [p.strip() for p in params.split(',')]
+    for param in params:
+      if not re.match(r"^[a-zA-Z]\w*$", param):
+        raise ConfigParserException("Invalid parameter name '{0}' in function signature found in [Potential-Form]: '{1}'".format(param, pf))
     return PotentialFormSignatureTuple(label, params, False)
 
   def _parse_params_section(self, section_name, parse_line_func):
